@@ -29,7 +29,7 @@ class Sym(str):
 
 
 class St:
-    __slots__ = ("P", "Q", "H", "Hq", "R", "loc", "env", "fresh", "trace", "dead", "known")
+    __slots__ = ("P", "Q", "H", "Hq", "R", "loc", "env", "fresh", "trace", "dead", "known", "flags")
 
     def __init__(self):
         self.P = Sym("P0")
@@ -43,6 +43,7 @@ class St:
         self.trace = []
         self.dead = False
         self.known = {}
+        self.flags = {}
 
     def copy(self):
         s = St()
@@ -52,6 +53,7 @@ class St:
         s.fresh = self.fresh
         s.trace = list(self.trace)
         s.known = dict(self.known)
+        s.flags = dict(self.flags)
         return s
 
     def new(self, hint="n"):
@@ -167,8 +169,29 @@ class Exec:
         """truth value (T/F/Sym) of a condition, plus optional unification to apply on each outcome: returns (value, on_true, on_false)
         where on_* are lists of (symA, symB) equalities"""
         fn = self.fn
-        atom, pol = flow.strip_cond(fn, nid)
+        # flag variables carry the truth value their definition had WHEN IT WAS EXECUTED (the guard's state may have changed since)
+        atom, pol = flow.strip_cond(fn, nid, follow=False)
         n = fn.nodes[atom]
+        if n["k"] == "ref" and n.get("dk") == "local" and n["name"] in st.flags:
+            val = st.flags[n["name"]]
+            return (val if pol else self._negv(val)), [], []
+        if n["k"] == "call" and n.get("inl_ret_var") and n["inl_ret_var"] in st.flags:
+            val = st.flags[n["inl_ret_var"]]
+            return (val if pol else self._negv(val)), [], []
+        if depth < 6 and ((n["k"] == "ref" and n.get("dk") == "local") or (n["k"] == "call" and n.get("inl_ret_var"))):
+            # not defined on this path by a tracked definition: fall back to the (unique) defining expression
+            atom2, pol2 = flow.strip_cond(fn, atom)
+            if atom2 != atom:
+                val, on_t, on_f = self.cond(st, atom2, depth + 1)
+                if not (pol == pol2):
+                    pass
+                if not pol2:
+                    val = self._negv(val)
+                    on_t, on_f = on_f, on_t
+                if not pol:
+                    val = self._negv(val)
+                    on_t, on_f = on_f, on_t
+                return val, on_t, on_f
         k = n["k"]
         c = fn.kids(atom)
         val = None
@@ -225,6 +248,27 @@ class Exec:
         if not pol:
             val = self._negv(val)
         return val, on_t, on_f
+
+    def _snapshot(self, st, nid):
+        """truth value of a boolean expression in the CURRENT state (T / F / Sym / ("not", Sym)); compound conditions become a fresh symbol"""
+        n = self.fn.nodes[nid]
+        if n["k"] == "lit" and n.get("v") in (0, 1, True, False):
+            return T if n["v"] else F
+        a, pol = flow.strip_cond(self.fn, nid, follow=False)
+        an = self.fn.nodes[a]
+        if an["k"] == "bin" and an.get("op") in ("&&", "||"):
+            return st.new("f")
+        val, on_t, on_f = self.cond(st, nid)
+        if on_t or on_f:
+            return st.new("f")
+        if isinstance(val, tuple):
+            inner = st.val(val[1])
+            if inner is T or inner is F:
+                return F if inner is T else T
+            if isinstance(inner, tuple):
+                return st.new("f")
+            return ("not", inner)
+        return st.val(val)
 
     @staticmethod
     def _neg(v):
@@ -294,7 +338,10 @@ class Exec:
         if k == "decl":
             for v in n["vars"]:
                 if "init" in v:
-                    st.loc[v["name"]] = self.nn(st, v["init"])
+                    if v.get("t", "").replace("const ", "").strip() == "bool":
+                        st.flags[v["name"]] = self._snapshot(st, v["init"])
+                    else:
+                        st.loc[v["name"]] = self.nn(st, v["init"])
             return
         if k == "init":
             # constructor initialisers: base(p) / base(p.ptr) / hp(p.hp) / he()
@@ -307,6 +354,10 @@ class Exec:
                 st.P = val
             return
         if k == "bin" and n["op"] == "=" and len(c) == 2:
+            ln = fn.nodes[c[0]]
+            if ln["k"] == "ref" and ln.get("dk") == "local" and ln.get("t", "").replace("const ", "").strip() == "bool":
+                st.flags[ln["name"]] = self._snapshot(st, c[1])
+                return
             self.assign_ptr(st, c[0], self.nn(st, c[1]))
             return
         if k == "construct":
@@ -364,8 +415,36 @@ class Exec:
         if cfg.get("refcount") and leaf == "fetch_add" and "ref_count" in fn.expr(e):
             st.R = self._radd(st.R, 1)
             return
-        if leaf == "swap" and len(c) == 2 and cfg.get("slot"):
-            st.H, st.Hq = st.Hq, st.H
+        if leaf == "swap" and len(c) == 2:
+            # std::swap(x, y) of two state fields
+            def cls(x):
+                who = self._member_of(x, ("ptr",))
+                if who:
+                    return "P" if who == "this" else "Q"
+                if cfg.get("slot"):
+                    who = self._member_of(x, (cfg["slot"],))
+                    if who:
+                        return "H" if who == "this" else "Hq"
+                return None
+            a, b = cls(c[0]), cls(c[1])
+            if a and b:
+                va, vb = getattr(st, a), getattr(st, b)
+                setattr(st, a, vb)
+                setattr(st, b, va)
+            return
+        if leaf == "do_swap" and self.member == "swap" and getattr(self, "resolve", None):
+            # the scheme's part of swap(): interpret the (straight-line) callee; `this` and the parameter keep their roles
+            callee_fn = self.resolve(n)
+            if callee_fn is None or any("cond" in b for b in callee_fn.blocks.values()):
+                st.H, st.Hq = st.new("u"), st.new("u")
+                return
+            saved = self.fn
+            self.fn = callee_fn
+            try:
+                for b2, i2, e2, n2 in callee_fn.events(live_only=True):
+                    self.event(st, e2)
+            finally:
+                self.fn = saved
             return
 
     def may_throw(self, e):
@@ -423,6 +502,15 @@ class Exec:
                     problems.append("returns false with a non-empty guard")
                 if self.member_kind == "move" and qe:
                     problems.append("moved-from guard is not empty")
+                if self.member_kind == "swap":
+                    problems = []
+                    if r != 0:
+                        problems.append("swap takes/releases protection units")
+                    if pe != q0 or qe != p0:
+                        problems.append("the pointers of the two guards are not exchanged")
+                    if self.cfg.get("slot") and (ev(st.H) != q0 or ev(st.Hq) != p0):
+                        problems.append("the pointers are exchanged but the %s slots are not: each guard now points to the object the OTHER guard's slot "
+                                        "protects, so resetting one guard withdraws the protection of the object the other still holds" % self.cfg["slot"])
             else:  # throw point (state before the throwing call takes effect)
                 if self.cfg.get("slot"):
                     h = ev(st.H)
@@ -432,7 +520,7 @@ class Exec:
                     if pe and not h:
                         problems.append("if this call throws, ptr is non-null but no slot protects it")
             if problems:
-                desc = ", ".join("%s=%s" % (k, "set" if v else "null") for k, v in env.items() if k in ("P0", "Q0"))
+                desc = "guard %s" % ("non-empty" if p0 else "empty") + (", other guard %s" % ("non-empty" if q0 else "empty") if self.other else "")
                 self.violations.append((where, kind, "; ".join(problems) + " [entry: %s]" % (desc or "any")))
                 return
 
@@ -672,6 +760,34 @@ def rules(ctx, schemes=None, rid="K3.guard-typestate", rid_throw="K13.guard-exce
                 if cfg.get("throws") and ex.throw_points:
                     ctx.check(not throw_v, rid_throw, inst, "%d throw points consistent" % ex.throw_points,
                               "%s: %s" % (inst, throw_v[0][2] if throw_v else ""), throw_v[0][0] if throw_v else fn.where(), fn=fn)
+    # swap(): one shape of detail::guard_ptr::swap per scheme (the Derived type is the parameter's type)
+    nswap = 0
+    for fn in ctx.facts.shapes(R_ + "detail::guard_ptr::swap"):
+        ptype = fn.params[0]["t"] if fn.params else ""
+        scheme = next((s_ for s_ in SCHEMES if ptype.startswith(R_ + s_ + "::guard_ptr")), None)
+        if scheme is None or (schemes and scheme not in schemes):
+            continue
+        ex = Exec(fn, scheme, SCHEMES[scheme], "swap", False, fn.params[0]["name"])
+        ex.member_kind = "swap"
+
+        def resolve(call, scheme=scheme):
+            callee = call.get("callee", "")
+            sh = ctx.facts.shapes(callee)
+            if not sh:
+                return None
+            if callee.startswith(R_ + "detail::"):
+                for c_ in sh:
+                    if c_.params and c_.params[0]["t"].startswith(R_ + scheme + "::guard_ptr"):
+                        return c_
+            return sh[0]
+        ex.resolve = resolve
+        ex.run()
+        nswap += 1
+        exit_v = [v for v in ex.violations if v[1] == "exit"]
+        ctx.check(not exit_v, rid, "%s::guard_ptr::swap" % scheme, "%d paths: both guards' complete protection state exchanged" % ex.paths,
+                  "%s::guard_ptr::swap: %s" % (scheme, exit_v[0][2] if exit_v else ""), exit_v[0][0] if exit_v else fn.where(), fn=fn)
+    if nswap < (len(schemes) if schemes else len(SCHEMES)):
+        ctx.broken.append("typestate: swap analysed for %d schemes only" % nswap)
     floor = 10 * (len(schemes) if schemes else len(SCHEMES))
     if n < floor:
         ctx.broken.append("typestate: only %d guard members analysed (floor %d)" % (n, floor))
